@@ -661,6 +661,39 @@ func (g *gen) fixKeys(p *Plan) {
 	for iter := 0; iter < 10; iter++ {
 		ks := p.keySets(map[string]bool{"in": true, "*": true})
 		bad := false
+		// a nested graph must not be fed keys that its own nodes produce (a cycle leading its
+		// output back to its START): inside it, START's value and a node's output would collide
+		for _, n := range p.Nodes {
+			if n.Kind != KSub || n.OutKey != "" {
+				continue
+			}
+			inner := n.Sub.allKeys()
+			for _, e := range p.Edges {
+				if e.To == n.Key {
+					for x := range ks[e.From] {
+						if inner[x] {
+							n.OutKey = n.Key
+							bad = true
+						}
+					}
+				}
+			}
+			for _, b := range p.Branches {
+				for _, t := range b.Targets {
+					if t == n.Key {
+						for x := range ks[b.From] {
+							if inner[x] {
+								n.OutKey = n.Key
+								bad = true
+							}
+						}
+					}
+				}
+			}
+		}
+		if bad {
+			continue
+		}
 		for _, to := range append(p.order(), "end") {
 			var srcs []string
 			for _, e := range p.Edges {
@@ -790,4 +823,21 @@ func (p *Plan) Render() string {
 	}
 	sb.WriteString("}")
 	return sb.String()
+}
+
+// allKeys: every map key a node of this plan (or of its nested plans) can produce.
+func (p *Plan) allKeys() map[string]bool {
+	out := map[string]bool{}
+	for _, n := range p.Nodes {
+		out[n.Key] = true
+		if n.OutKey != "" {
+			out[n.OutKey] = true
+		}
+		if n.Kind == KSub {
+			for k := range n.Sub.allKeys() {
+				out[k] = true
+			}
+		}
+	}
+	return out
 }
